@@ -75,7 +75,9 @@ theorem finished_is_inert (sp : Spec) (w : World) (ev : Event) (hc : isCompleted
               · exact ⟨by unfold ids; rw [(checkAffected_tasks sp _ t).1], by rw [(checkAffected_tasks sp _ t).2]⟩
           · split
             · exact ⟨rfl, rfl⟩
-            · exact ⟨by simp [ids, setTask_ids], rfl⟩
+            · split
+              · exact ⟨rfl, rfl⟩
+              · exact ⟨by simp [ids, setTask_ids], rfl⟩
       | rpcResult t ok =>
         simp only
         split
